@@ -352,12 +352,11 @@ type c05Srv struct {
 	tb *c05TB
 }
 
-func c05Open(t testing.TB, dsn string, fullTap bool) *c05Srv {
+// c05Open builds a registry on dsn. role != "" restricts the server's tap to
+// driver connections whose DSN contains the database name AND role.
+func c05Open(t testing.TB, dsn string, role string) *c05Srv {
 	tb := &c05TB{TB: t}
-	o := apih.Options{Namespaces: axNamespaces(), Config: map[string]any{"limit.max_read_depth": 50}, DSN: dsn}
-	if fullTap {
-		o.TapMatch = strings.TrimPrefix(dsn, "sqlite://")
-	}
+	o := apih.Options{Namespaces: axNamespaces(), Config: map[string]any{"limit.max_read_depth": 50}, DSN: dsn, TapMatch: role}
 	return &c05Srv{Server: apih.NewServer(tb, o), tb: tb}
 }
 
@@ -542,12 +541,15 @@ func (h *c05H) env(w int) *c05Env {
 		return e
 	}
 	e = &c05Env{h: h, id: w}
+	// Writer and reader registries open the same database; the extra URI
+	// parameter (ignored by sqlite) only gives each its own sqlfault tap.
+	role := func(r string) string { return fmt.Sprintf("verifrole=%s%dz", r, w) }
 	p := filepath.Join(h.dir, fmt.Sprintf("w%d.sqlite", w))
-	e.w = c05Open(h.t, "sqlite://file:"+p+"?_fk=true&_journal_mode=WAL&_busy_timeout=1", true)
-	e.r = c05Open(h.t, "sqlite://file:"+p+"?_fk=true&_busy_timeout=1&_journal_mode=WAL", true)
+	e.w = c05Open(h.t, "sqlite://file:"+p+"?_fk=true&_journal_mode=WAL&_busy_timeout=1&"+role("w"), role("w"))
+	e.r = c05Open(h.t, "sqlite://file:"+p+"?_fk=true&_journal_mode=WAL&_busy_timeout=1&"+role("r"), role("r"))
 	m := fmt.Sprintf("c05mem_%d_%d_%d.sqlite", os.Getpid(), w, time.Now().UnixNano())
-	e.mw = c05Open(h.t, "sqlite://file:"+m+"?_fk=true&cache=shared&mode=memory", true)
-	e.mr = c05Open(h.t, "sqlite://file:"+m+"?_fk=true&mode=memory&cache=shared", true)
+	e.mw = c05Open(h.t, "sqlite://file:"+m+"?_fk=true&cache=shared&mode=memory&"+role("mw"), role("mw"))
+	e.mr = c05Open(h.t, "sqlite://file:"+m+"?_fk=true&cache=shared&mode=memory&"+role("mr"), role("mr"))
 	if e.w.DefaultNetwork() != e.r.DefaultNetwork() || e.mw.DefaultNetwork() != e.mr.DefaultNetwork() {
 		panic("c05: writer and reader registries ended up in different networks")
 	}
@@ -776,7 +778,7 @@ func TestC05Worker(t *testing.T) {
 	if r == nil {
 		t.Fatalf("unknown request %q", spec.Req)
 	}
-	s := c05Open(t, spec.DSN, true)
+	s := c05Open(t, spec.DSN, "")
 	kill := func() {
 		_ = syscall.Kill(os.Getpid(), syscall.SIGKILL)
 		select {}
@@ -816,7 +818,7 @@ func (e *c05Env) evalCrash(r *c05Req, t c05Task) c05Out {
 	base := filepath.Join(e.h.dir, fmt.Sprintf("crash_%d_%d.sqlite", e.id, c05Seq.Add(1)))
 	dsn := "sqlite://file:" + base + "?_fk=true&" + opts
 	defer c05RemoveDB(dsn)
-	s := c05Open(e.h.t, dsn, false)
+	s := c05Open(e.h.t, dsn, "")
 	c05Reset(s.Server, r)
 	s.close()
 
@@ -852,7 +854,7 @@ func (e *c05Env) evalCrash(r *c05Req, t c05Task) c05Out {
 	}
 
 	// reopen with a fresh registry
-	s2 := c05Open(e.h.t, dsn, false)
+	s2 := c05Open(e.h.t, dsn, "")
 	got := c05RowsMultiset(s2.Server)
 	l := axListREST(s2.Client(), &ketoapi.RelationQuery{}, 1000)
 	s2.close()
@@ -1099,7 +1101,7 @@ func TestC05(t *testing.T) {
 		return
 	}
 
-	deadline := ev.Deadline(210, 1500)
+	deadline := ev.Deadline(200, 1500)
 	var timedOut atomic.Bool
 	var mu sync.Mutex
 	var cands []c05Cand
@@ -1108,6 +1110,10 @@ func TestC05(t *testing.T) {
 	var samples []c05Cand
 
 	runTasks := func(tasks []c05Task) {
+		if len(tasks) > 0 {
+			t0 := time.Now()
+			defer func() { fmt.Printf("[c05] part %s: %d tasks in %.1fs\n", tasks[0].Part, len(tasks), time.Since(t0).Seconds()) }()
+		}
 		axParallel(len(tasks), h.env, func(e *c05Env, i int) {
 			if time.Now().After(deadline) {
 				timedOut.Store(true)
@@ -1131,7 +1137,7 @@ func TestC05(t *testing.T) {
 			if o.Sig != "" {
 				cands = append(cands, c05Cand{tasks[i], o})
 			}
-			if i == 0 || i == len(tasks)/2 || i == len(tasks)-1 {
+			if i == 0 || i == len(tasks)/2 {
 				samples = append(samples, c05Cand{tasks[i], o})
 			}
 			mu.Unlock()
@@ -1199,6 +1205,9 @@ func TestC05(t *testing.T) {
 			n := h.nOf(r.ID)
 			for i := 1; i <= n+1; i++ {
 				tasks = append(tasks, c05Task{Part: "reader", Req: r.ID, I: i, Variant: v})
+				if v == "memory" && r.NI+r.ND > 203 && !ev.Thorough() {
+					continue // quick tier: two-read readers on the shared-cache variant only for the small requests
+				}
 				for j := i; j <= n+1; j++ {
 					tasks = append(tasks, c05Task{Part: "reader", Req: r.ID, I: i, J: j, Variant: v})
 				}
@@ -1275,6 +1284,7 @@ func TestC05(t *testing.T) {
 		"unstable_candidates":   unstable,
 		"crash_journal_modes":   variants,
 		"reader_db_variants":    []string{"wal-file", "shared-cache-memory"},
+		"reader_pairs_memory":   map[bool]string{true: "all requests", false: "requests with |I|+|D| <= 203 (quick tier)"}[ev.Thorough()],
 		"worker_subprocess":     "TestC05Worker (SIGKILL self inside the sqlfault hook)",
 		"statement_fault_kinds": []string{"fail-before", "fail-after", "drop-connection"},
 	})
